@@ -597,7 +597,26 @@ def standin_prefixed_circuits(tier, seed):
             fails.append(dict(args=args, failed="prefixed-circuit", clause=f"the prefixed circuit is not a valid program: {ex}"))
         except Exception as ex:
             fails.append(dict(args=args, failed="prefixed-circuit-raised", clause=f"{ex!r}"))
-    return dict(function="cirq-core/cirq/circuits/{moment,circuit}.py:_with_key_path_prefix_", case="prefixed-circuits", bound="3 bodies whose controls read keys measured inside them x 2 prefixes, circuit-level and moment-level",
+    # key maps that send one key of a condition onto another (swaps, cycles): every key of every condition is renamed at once — a control over two
+    # records still reads two records, each the renamed one (deterministic circuit, records differ, so a collapsed condition shows)
+    a_, b_ = sympy.Symbol("ka"), sympy.Symbol("kb")
+    conds = {"ka > kb": (a_ > b_, lambda ka, kb: ka > kb), "ka[0] == 1 and kb == 0": (sympy.And(sympy.Eq(sympy.IndexedBase("ka")[0], 1), sympy.Eq(b_, 0)), lambda ka, kb: ka == 1 and kb == 0),
+             "ka + 2*kb == 2": (sympy.Eq(a_ + 2 * b_, 2), lambda ka, kb: ka + 2 * kb == 2)}
+    for (cname, (expr, truth)), (va, vb), kmap in itertools.product(conds.items(), ((0, 1), (1, 0), (1, 1)), ({"ka": "kb", "kb": "ka"}, {"ka": "kb", "kb": "kc"}, {"ka": "x"})):
+        cases += 1
+        body = cirq.Circuit([cirq.X(q[0])] if va else [], [cirq.X(q[1])] if vb else [], cirq.measure(q[0], key="ka"), cirq.measure(q[1], key="kb"), cirq.X(q[2]).with_classical_controls(expr), cirq.measure(q[2], key="out"))
+        try:
+            mapped = cirq.with_measurement_key_mapping(body, kmap)
+            got = int(cirq.Simulator(seed=1).run(mapped, repetitions=1).measurements["out"][0][0])
+            keys_read = {str(k) for op in mapped.all_operations() for k in cirq.control_keys(op)}
+        except Exception as ex:
+            fails.append(dict(args=dict(condition=cname, key_map=kmap, records=[va, vb]), failed="prefixed-circuit-raised", clause=f"{ex!r}"))
+            continue
+        want_keys = {kmap.get("ka", "ka"), kmap.get("kb", "kb")}
+        if keys_read != want_keys or got != int(bool(truth(va, vb))):
+            fails.append(dict(args=dict(condition=cname, key_map=kmap, records=[va, vb]), failed="key-map-condition",
+                              clause=f"after with_measurement_key_mapping({kmap}) the control reads {sorted(keys_read)} (expected {sorted(want_keys)}) and was {'applied' if got else 'not applied'}; the condition on the renamed records is {bool(truth(va, vb))}"))
+    return dict(function="cirq-core/cirq/circuits/{moment,circuit}.py:_with_key_path_prefix_", case="prefixed-circuits", bound="3 bodies whose controls read keys measured inside them x 2 prefixes, circuit-level and moment-level; 3 two-key conditions x 3 records x 3 key maps (swap, chain, plain)",
                 cases=cases, distinct=cases, failures=len(fails), exhaustive=True, _fails=fails[:4])
 standin_prefixed_circuits.prop = "C12"
 
